@@ -47,7 +47,7 @@ pub struct C16;
 const BOUND: Duration = Duration::from_secs(5);
 
 fn header(v2: bool, port: u16, n: u16) -> Vec<u8> {
-    let src: SocketAddr = format!("203.0.113.{}:{}", 1 + n % 200, 30000 + n).parse().unwrap();
+    let src: SocketAddr = format!("203.0.{}.{}:{}", 113 + n / 200, 1 + n % 200, 30000 + n).parse().unwrap();
     let dst: SocketAddr = format!("127.0.0.1:{port}").parse().unwrap();
     if v2 { net::proxy_v2(src, dst) } else { net::proxy_v1(src, dst) }
 }
@@ -120,7 +120,9 @@ fn open_stallers(case: &Case, port: u16) -> Vec<NetClient> {
 fn one_run(case: &Case, with_stallers: bool) -> Option<Duration> {
     let cfg = ListenerCfg {
         proxy: case.proxy.then_some((true, true)),
-        limiter: case.limiter.then_some((Duration::from_secs(1000), 1000)),
+        // with PROXY on every client announces its own source address, so a small per-address budget must not
+        // make the stalling clients matter to the well-behaved one; with PROXY off all come from 127.0.0.1
+        limiter: case.limiter.then_some((Duration::from_secs(1000), if case.proxy { 2 } else { 1000 })),
         timeout: Duration::from_secs(30),
         ..Default::default()
     };
